@@ -6,7 +6,7 @@ ROOT = os.path.dirname(os.path.dirname(os.path.abspath(__file__)))
 
 # id -> (technique, level text, level note, design ref)
 T = {
- "C01": ("Coq inductive invariant over all histories of the model (escrow = pending fees + earnings) + differential correspondence of the extracted model with the real handler/EndBlocker on groups bank, oblig",
+ "C01": ("Coq inductive invariant over all histories of the model (escrow = pending fees + earnings) + differential correspondence of the extracted model with the real handler/EndBlocker on groups bank, oblig; also proved for histories with governance parameter changes (ReachP, C01_escrow_backed_param_changes)",
          "Proof (Coq): C01_escrow_backed is an invariant of every reachable state of the Gallina state machine, for all op sequences, amounts and legal parameter sets, also between the per-context handlers inside EndBlock. The model is tied to /repo by running the extracted model and the real code on the same generated histories and comparing balances, active-request fees and earned-fee records after every step; an implementation-only monitor recomputes the equality from raw store scans to find concrete failing histories.",
          "Trusted: Coq kernel, extraction (ExtrOcamlBasic), harness + comparer, host guarantees of DESIGN 3.5; K3 (module-service call path) is outside the model and a recorded known finding.", "7 C01"),
 }
@@ -18,7 +18,7 @@ GENERIC = {
  "C03": "Coq invariant for all reachable states (deposit account = sum of binding deposits, all balances >= 0, supply = sum of balances) + per-step theorems (refund iff unavailable, non-zero and waiting period over; deposits only grow by owner-paid amounts; slash burns exactly the amount) + correspondence on bank, bind",
  "C04": "Coq trace theorems (slash at most once per request, only with a time-out of a paid request or a malformed answer, every such failure slashes) + per-call slash specification (amount = floor(deposit*fraction), deposit/account/supply reduced, auto-disable iff below minimum) + correspondence on bind, bank, slash + slash-event monitor",
  "C05": "Coq per-handler authority theorems (success implies the rightful signer; module-created contexts cannot be driven by messages), wrong signer => state unchanged, only the signer is debited (bounded), EndBlock debits only consumers of due running contexts + correspondence on res, bank + wrong-signer stream",
- "C06": "Coq exact case analysis of the new-batch handler (not running / total reached / skipped / paused for funds / issued to exactly the eligible providers in order, fee = filter price <= cap, consumer debited the sum) incl. the whole-EndBlock version + correspondence on req, ctx, bank + independent recomputation monitor",
+ "C06": "Coq exact case analysis of the new-batch handler (not running / total reached / skipped / paused for funds / issued to exactly the eligible providers in order, fee = filter price <= cap, consumer debited the sum) incl. the whole-EndBlock version + correspondence on req, ctx, bank + independent recomputation monitor; histories include governance parameter changes (op setparams; corpus witness W18: QoS above the timeout after the maximum request timeout was lowered)",
  "C07": "Coq theorems on the pricing functions (window and tier selection, fee formula and bounds, exact-floor characterisation, consumer charge = stored fee) + pure price stream against the real sdk.Dec / keeper code + correspondence on req, vol, bank + recomputation-from-published-text monitor",
  "C08": "Coq theorems: a valid response of the provider to an active request is always accepted, everything else rejected without effect, once only, records survive every message and every EndBlock before the expiry height and are gone after it + correspondence on res, req + history-based acceptance monitor",
  "C09": "Coq step relation on context records (the only message-induced changes are pause/start/kill/update/respond with their exact effect; static fields never change; completed is final) and record-shape invariant for reachable states + correspondence on ctx, res + transition monitor",
@@ -26,7 +26,7 @@ GENERIC = {
  "C11": "Coq scheduling invariant for reachable states (queue entries <=> pointers, never both queues, entries only for existing contexts and never in the past, a running context always has a pending event; every stored request has its expiry queued) + correspondence on queue, req, ctx",
  "C12": "Coq invariants on batch counts (recorded counts = stored records while the expiry is pending), completion exactly at the last response or at expiry, trace theorem callback-once-per-batch with the exact outputs and error flag, state callback exactly on pause-for-funds + correspondence on ctx, req, cb",
  "C13": "Coq invariant (owner earnings = sum of its providers' earnings, every earning has an owner) and withdraw specifications (exact payout, destination, records zeroed, nothing else touched) + correspondence on oblig, bank, index + key-scan exactness from the regenerated key layer",
- "C14": "Coq invariant (available => deposit >= max(min deposit, price*multiple) for the price parsed from the published text) + rejection lemmas for bind/update/enable + slash auto-disable + correspondence on bind, res + pure price stream",
+ "C14": "Coq invariant (available => deposit >= max(min deposit, price*multiple) for the price parsed from the published text) + rejection lemmas for bind/update/enable + slash auto-disable + correspondence on bind, res + pure price stream; under parameter changes inside a history the invariant is proved for every change that does not raise the minimum (ReachP_Inv, Inv_relax), raising it is refuted by a concrete reachable state (C14_tighten_min_deposit_refuted), and generated histories contain such changes (op setparams)",
  "C15": "Coq invariants on definitions/bindings/indexes (binding <=> index entries <=> parsed pricing; owner write-once; definitions immutable) + step stability theorems + correspondence on index, bind, res",
  "C16": "Coq invariant (every request/response/marker belongs to the current batch of an existing context with a pending expiry; a context without pending expiry has no records) + cleanup and finished-context-removed theorems + correspondence on req, ctx",
  "C17": "Coq refinement of every query code path (gRPC and legacy) to a comprehension over the state, hypotheses discharged for reachable states + differential check of all queries on sampled existing/non-existing arguments against raw store scans and the extracted model",
